@@ -15,7 +15,7 @@ import os
 
 PROPERTY = 'C03'
 LEVEL = 'model_checking'
-BUDGET_S = {'quick': 900, 'thorough': 7200}
+BUDGET_S = {'quick': 3600, 'thorough': 14400}
 
 from . import ctxgrid as G
 from . import c02
